@@ -151,6 +151,9 @@ func pathD(v ssa.Value, d int) string {
 				return pathD(a, d+1)
 			}
 		}
+		if b := closureParamBinding(x); b != nil {
+			return pathD(b, d+1)
+		}
 		if s := curProg.HelperSite(x.Parent()); s != nil && belowScopeRoot(x.Parent()) {
 			for i, q := range x.Parent().Params {
 				if q == x && i < len(s.Common().Args) {
@@ -1079,4 +1082,62 @@ func liftInScope(ins ssa.Instruction) ssa.Instruction {
 		ins = s
 	}
 	return ins
+}
+
+// closureParamBinding: par is a parameter of an anonymous function that is handed
+// (as a function value) to a repository function h, and h calls that function
+// parameter at exactly one place: par then stands for the argument of that call
+// (template-method helpers: r.update(func(data, address) {…}) with h calling modify(data, addr)).
+// Only inside a scope.
+func closureParamBinding(par *ssa.Parameter) ssa.Value {
+	if scopeRoot == nil || par == nil || par.Parent() == nil || par.Parent().Parent() == nil {
+		return nil
+	}
+	cl := par.Parent()
+	idx := -1
+	for i, q := range cl.Params {
+		if q == par {
+			idx = i
+		}
+	}
+	if idx < 0 {
+		return nil
+	}
+	var res ssa.Value
+	n := 0
+	for _, b := range cl.Parent().Blocks {
+		for _, ins := range b.Instrs {
+			// the function value: a closure (MakeClosure) or, when nothing is captured, the function itself
+			site, ok := ins.(*ssa.Call)
+			if !ok {
+				continue
+			}
+			{
+				h := site.Call.StaticCallee()
+				if h == nil || h.Blocks == nil || !strings.HasPrefix(fnPkgPath(h), repoMod) {
+					continue
+				}
+				for k, a := range site.Call.Args {
+					isFn := a == ssa.Value(cl)
+					if mc, isMC := a.(*ssa.MakeClosure); isMC && mc.Fn == ssa.Value(cl) {
+						isFn = true
+					}
+					if !isFn || k >= len(h.Params) {
+						continue
+					}
+					fp := h.Params[k]
+					forEachCallOwn(h, func(inner ssa.CallInstruction) {
+						if inner.Common().Value == ssa.Value(fp) && !inner.Common().IsInvoke() && idx < len(inner.Common().Args) {
+							res = inner.Common().Args[idx]
+							n++
+						}
+					})
+				}
+			}
+		}
+	}
+	if n != 1 {
+		return nil
+	}
+	return res
 }
